@@ -677,7 +677,7 @@ def run(ctx):
     for fam in FAMILIES:
         # a case takes ~30 ms: worker processes (import of the package in each) only pay off for thorough
         fam.parallel = fam.parallel and not ctx.quick
-    for fam, n in ((FAMILIES[0], ctx.n(24, 200)), (FAMILIES[1], ctx.n(100, 1000)), (FAMILIES[2], ctx.n(16, 100)), (FAMILIES[3], ctx.n(14, 80)), (FAMILIES[4], ctx.n(100, 1500))):
+    for fam, n in ((FAMILIES[0], ctx.n(24, 300)), (FAMILIES[1], ctx.n(100, 1500)), (FAMILIES[2], ctx.n(16, 150)), (FAMILIES[3], ctx.n(14, 120)), (FAMILIES[4], ctx.n(100, 2500))):
         stats.append(run_family(ctx, fam, n))
         ctx.log(f"family {fam.name}: {stats[-1]['cases']} cases, {stats[-1]['mismatches']} mismatches, "
                 f"{stats[-1]['oracle_failures']} oracle failures")
